@@ -1,8 +1,126 @@
-(* C15 — statements only; see GCS/*Proofs.v *)
+(* C15 — GCS: compose concatenates, copy clones.
+   Only statements here; proofs are in GCS/ComposeProofs.v. *)
 From Coq Require Import List NArith ZArith Bool.
-From Emu.GCS Require Import Model CondsSpec CondsProofs HandlerProofs.
-Theorem C15_failed_request_frame : forall s r,
-  let '(s', rsp) := handle s r in
-  is_success (r_status rsp) = false -> s_buckets s' = s_buckets s /\ s_clock s' = s_clock s.
-Proof. exact failed_request_frame. Qed.
-Print Assumptions C15_failed_request_frame.
+Import ListNotations.
+From Emu.Common Require Import Bytes Str.
+From Emu.Gen Require Import Consts.
+From Emu.GCS Require Import Model UploadProofs ComposeProofs.
+Local Open Scope Z_scope.
+
+(* a well-formed compose whose sources all exist and pass their generation condition (in the
+   state BEFORE the request) and whose destination preconditions pass: 200, the destination is
+   the concatenation in request order of the sources' contents before the request (repeated
+   sources and the destination among the sources included), md5 absent, metageneration 1,
+   fresh generation; every other object (so every source but the destination) is untouched *)
+Theorem C15_compose_concat : forall s b dst srcs dm cp c,
+  resolve_conds s cp = Some c ->
+  contains dst s_compose = false ->
+  Z.of_nat (length srcs) <= gcsMaxComposeSources ->
+  Forall (src_usable s b) srcs ->
+  validate_conds (obj_gens (find_obj s b dst)) c = VPass ->
+  let s' := fst (handle s (RCompose b dst false srcs dm cp)) in
+  let rsp := snd (handle s (RCompose b dst false srcs dm cp)) in
+  let o' := mkObj (flat_map (src_data s b) srcs) (dm_ctype dm) (s_clock s + 1) 1 false (dm_meta dm) in
+  rsp = mkResp 200 (BMeta (view b dst o'))
+  /\ find_obj s' b dst = Some o'
+  /\ forall b' n', (b', n') <> (b, dst) -> find_obj s' b' n' = find_obj s b' n'.
+Proof. exact compose_concat. Qed.
+Print Assumptions C15_compose_concat.
+
+(* conversely a compose answered 200 is always that case *)
+Theorem C15_compose_200_inv : forall s b dst bad srcs dm cp,
+  r_status (snd (handle s (RCompose b dst bad srcs dm cp))) = 200 ->
+  exists dstname x,
+    split (dst ++ s_compose) s_compose = [dstname; x]
+    /\ Forall (src_usable s b) srcs
+    /\ fst (handle s (RCompose b dst bad srcs dm cp))
+       = store_add s b dstname (flat_map (src_data s b) srcs) (dm_ctype dm) false (dm_meta dm).
+Proof. exact compose_200_inv. Qed.
+Print Assumptions C15_compose_200_inv.
+
+(* the destination name is what precedes "/compose" *)
+Theorem C15_split_compose : forall dst,
+  contains dst s_compose = false -> split (dst ++ s_compose) s_compose = [dst; []].
+Proof. exact split_compose. Qed.
+Print Assumptions C15_split_compose.
+
+(* more than gcsMaxComposeSources sources: 400 whatever else the request says, state unchanged *)
+Theorem C15_compose_too_many_400 : forall s b dst bad srcs dm cp,
+  Z.of_nat (length srcs) > gcsMaxComposeSources ->
+  handle s (RCompose b dst bad srcs dm cp) = (s, err 400).
+Proof. exact compose_too_many_400. Qed.
+Print Assumptions C15_compose_too_many_400.
+
+(* a missing source (all sources before it usable): 404, state unchanged *)
+Theorem C15_compose_missing_source_404 : forall s b dst pre sc post dm cp c,
+  resolve_conds s cp = Some c ->
+  contains dst s_compose = false ->
+  Z.of_nat (length (pre ++ sc :: post)) <= gcsMaxComposeSources ->
+  Forall (src_usable s b) pre -> find_obj s b (fst sc) = None ->
+  handle s (RCompose b dst false (pre ++ sc :: post) dm cp) = (s, err 404).
+Proof. exact compose_missing_source_404. Qed.
+Print Assumptions C15_compose_missing_source_404.
+
+(* an unusable source anywhere: an error and the state unchanged *)
+Theorem C15_compose_unusable_source_fails : forall s b dst bad srcs dm cp sc,
+  In sc srcs -> ~ src_usable s b sc ->
+  fst (handle s (RCompose b dst bad srcs dm cp)) = s
+  /\ In (r_status (snd (handle s (RCompose b dst bad srcs dm cp)))) [400; 404; 412; 304].
+Proof. exact compose_unusable_source_fails. Qed.
+Print Assumptions C15_compose_unusable_source_fails.
+
+(* copy: the destination gets the source's data, content type, md5 flag and metadata, a fresh
+   generation and metageneration 1; everything else (the source, if different) is untouched *)
+Theorem C15_copy_clones : forall s b1 n1 b2 n2 f1 rest b2' f2 o,
+  contains (n1 ++ s_rewrite_b ++ b2 ++ s_o ++ n2) s_compose = false ->
+  split (n1 ++ s_rewrite_b ++ b2 ++ s_o ++ n2) s_rewrite_b = [f1; rest] ->
+  split2 rest s_o = [b2'; f2] ->
+  find_obj s b1 f1 = Some o ->
+  let s' := fst (handle s (RCopy b1 n1 b2 n2)) in
+  let rsp := snd (handle s (RCopy b1 n1 b2 n2)) in
+  let o' := mkObj (o_data o) (o_ctype o) (s_clock s + 1) 1 (o_md5 o) (o_meta o) in
+  rsp = mkResp 200 (BRewrite (view b2' f2 o'))
+  /\ find_obj s' b2' f2 = Some o'
+  /\ forall b' n', (b', n') <> (b2', f2) -> find_obj s' b' n' = find_obj s b' n'.
+Proof. exact copy_clones. Qed.
+Print Assumptions C15_copy_clones.
+
+Theorem C15_copy_source_untouched : forall s b1 n1 b2 n2 f1 rest b2' f2 o,
+  contains (n1 ++ s_rewrite_b ++ b2 ++ s_o ++ n2) s_compose = false ->
+  split (n1 ++ s_rewrite_b ++ b2 ++ s_o ++ n2) s_rewrite_b = [f1; rest] ->
+  split2 rest s_o = [b2'; f2] ->
+  find_obj s b1 f1 = Some o -> (b1, f1) <> (b2', f2) ->
+  find_obj (fst (handle s (RCopy b1 n1 b2 n2))) b1 f1 = Some o.
+Proof. exact copy_source_untouched. Qed.
+Print Assumptions C15_copy_source_untouched.
+
+Theorem C15_copy_missing_404 : forall s b1 n1 b2 n2 f1 rest b2' f2,
+  contains (n1 ++ s_rewrite_b ++ b2 ++ s_o ++ n2) s_compose = false ->
+  split (n1 ++ s_rewrite_b ++ b2 ++ s_o ++ n2) s_rewrite_b = [f1; rest] ->
+  split2 rest s_o = [b2'; f2] ->
+  find_obj s b1 f1 = None ->
+  handle s (RCopy b1 n1 b2 n2) = (s, err 404).
+Proof. exact copy_missing_404. Qed.
+Print Assumptions C15_copy_missing_404.
+
+Theorem C15_copy_200_inv : forall s b1 n1 b2 n2,
+  r_status (snd (handle s (RCopy b1 n1 b2 n2))) = 200 ->
+  exists f1 rest b2' f2 o,
+    split (n1 ++ s_rewrite_b ++ b2 ++ s_o ++ n2) s_rewrite_b = [f1; rest]
+    /\ split2 rest s_o = [b2'; f2] /\ find_obj s b1 f1 = Some o
+    /\ fst (handle s (RCopy b1 n1 b2 n2)) = store_add s b2' f2 (o_data o) (o_ctype o) (o_md5 o) (o_meta o).
+Proof. exact copy_200_inv. Qed.
+Print Assumptions C15_copy_200_inv.
+
+(* non-vacuity: see compose_copy_example in GCS/ComposeProofs.v (x ++ y ++ x composed into x,
+   a 404, a 33-source 400, a copy and a copy of a missing object on a concrete state) *)
+Example C15_nonvacuous :
+  let cp := mkCP (PRaw []) (PRaw []) (PRaw []) (PRaw []) in
+  let bk := [98]%N in
+  let s := fst (run init_state [RUploadMedia bk [120]%N [116]%N [1; 2]%N cp;
+                                RUploadMedia bk [121]%N [116]%N [3]%N cp]) in
+  let srcs := [([120]%N, PRaw []); ([121]%N, PGen bk [121]%N 0); ([120]%N, PRaw [])] in
+  Forall (src_usable s bk) srcs
+  /\ option_map o_data (find_obj (fst (handle s (RCompose bk [120]%N false srcs None cp))) bk [120]%N)
+     = Some [1; 2; 3; 1; 2]%N.
+Proof. cbn zeta. split; [apply compose_copy_example|apply compose_copy_example]. Qed.
